@@ -560,6 +560,11 @@ func (c *child) runFaults() {
 					so.Note = "flooded-reader-evicted"
 				}
 			}
+			// ... and then the stalled client goes away: the relay's blocked writer and its reader both end
+			tcp.SetLinger(0)
+			tcp.Close()
+			c.evs = append(c.evs, Ev{E: "Unregister", N: n})
+			time.Sleep(150 * time.Millisecond)
 		}
 		if gone {
 			c.evs = append(c.evs, Ev{E: "Unregister", N: n})
